@@ -44,6 +44,7 @@ typedef struct {
   int unit;
   unsigned long wcount; /* units written into this end so far */
   int listener;
+  volatile int closing; /* a close() of this descriptor has been started by the script */
   struct sockaddr_un addr;
   socklen_t alen;
 } iofd_t;
@@ -182,6 +183,17 @@ static int io_obj(const char* kind, const char* name, long arg, void** obj) {
 }
 
 /* ------------------------------------------------------------------ operations */
+/* errno of a failed call.  A call that fails because the descriptor is being closed by another fiber is woken
+   with FIBER_ERROR and returns -1 WITHOUT setting errno: what the caller then finds in errno is whatever the
+   kernel thread it resumed on holds (often EAGAIN of some other attempt).  That value is not an observation of
+   the shim, so it is reported as "CLOSED:<errno>" and not judged. */
+static const char* fail_name(const iofd_t* d, int e) {
+  static __thread char tmp[32];
+  if (!d->closing) return ename(e);
+  snprintf(tmp, sizeof tmp, "CLOSED:%s", ename(e));
+  return tmp;
+}
+
 static unsigned char g_buf[16 * UNIT_PIPE];
 
 static long one_read(const char* f, iofd_t* d, long n, const char* opname) {
@@ -195,7 +207,7 @@ static long one_read(const char* f, iofd_t* d, long n, const char* opname) {
   char v[40] = "";
   if (r > 0) ids_of(d, buf, r / d->unit, v, sizeof v);
   vrt_api("\"f\":\"%s\",\"ph\":\"ret\",\"op\":\"%s\",\"o\":\"%s\",\"n\":%ld,\"r\":%ld,\"v\":\"%s\"", f, opname, d->name, n,
-          r >= 0 ? r / d->unit : -1, r < 0 ? ename(e) : v);
+          r >= 0 ? r / d->unit : -1, r < 0 ? fail_name(d, e) : v);
   free(buf);
   return r >= 0 ? r / d->unit : -1;
 }
@@ -209,7 +221,7 @@ static long one_write(const char* f, iofd_t* d, long n, const char* opname) {
   int e = r < 0 ? fetch_errno() : 0;
   if (r > 0) d->wcount += (unsigned long)(r / d->unit);
   vrt_api("\"f\":\"%s\",\"ph\":\"ret\",\"op\":\"%s\",\"o\":\"%s\",\"n\":%ld,\"r\":%ld,\"v\":\"%s\"", f, opname, d->name, n,
-          r >= 0 ? r / d->unit : -1, r < 0 ? ename(e) : "");
+          r >= 0 ? r / d->unit : -1, r < 0 ? fail_name(d, e) : "");
   free(buf);
   return r >= 0 ? r / d->unit : -1;
 }
@@ -236,6 +248,7 @@ static int io_op(const char* f, const char* op, const char* a1, const char* a2) 
   } else if (!strcmp(op, "close")) {
     iofd_t* d = by_name(a1);
     int fd = d->fd;
+    d->closing = 1;
     vrt_api("\"f\":\"%s\",\"ph\":\"call\",\"op\":\"close\",\"o\":\"%s\"", f, d->name);
     clear_errno();
     int r = close(fd);
@@ -248,7 +261,7 @@ static int io_op(const char* f, const char* op, const char* a1, const char* a2) 
     int r = accept(d->fd, NULL, NULL);
     int e = r < 0 ? fetch_errno() : 0;
     if (r >= 0) syscall(SYS_close, r); /* the accepted socket is not used further */
-    vrt_api("\"f\":\"%s\",\"ph\":\"ret\",\"op\":\"accept\",\"o\":\"%s\",\"r\":%d,\"v\":\"%s\"", f, d->name, r >= 0 ? 1 : -1, r < 0 ? ename(e) : "");
+    vrt_api("\"f\":\"%s\",\"ph\":\"ret\",\"op\":\"accept\",\"o\":\"%s\",\"r\":%d,\"v\":\"%s\"", f, d->name, r >= 0 ? 1 : -1, r < 0 ? fail_name(d, e) : "");
   } else if (!strcmp(op, "conn")) {
     iofd_t* d = by_name(a1);
     int c = (int)syscall(SYS_socket, AF_UNIX, SOCK_STREAM | SOCK_NONBLOCK, 0);
